@@ -188,6 +188,7 @@ pub fn noise_strategy() -> impl Strategy<Value = JaxNoise> {
             // derived from two of the generated fields: half of the cases have the usual head
             hpoa_head: if comments % 2 == 0 { 0 } else { 1 + (typedefs + gene_header) % 3 },
             eof: if extra_tags.len() % 2 == 0 { 0 } else { 1 + (extra_tags[0] % 2) },
+            long_lines: extra_tags.len() == 5 || (extra_tags.len() == 3 && extra_tags[0] % 2 == 0),
             gene_header,
             extra_tags,
             typedefs,
